@@ -19,7 +19,7 @@ use crate::util::*;
 pub const PROP: Prop = Prop {
     id: "C04",
     level: "exploration",
-    rule: "(round 8: every f32 bit pattern through to_value/from_value in the thorough tier, every 512th in the quick tier; newtype structs around one-element tuples, arrays and sequences) (rounds 6-7: std::net address types, which ask is_human_readable; every integer type at every power of two and of ten with neighbours; targets that borrow strings and byte buffers from the value, value path only) (text clause: the text also goes through serde_lexpr::to_writer and to_writer_custom into sinks that accept 1, 3 or 7 bytes per call - native write_vectored included - and into a sink that fails half way, and is read back through from_slice, from_reader on a cursor and from_reader on a one-byte-per-call reader) for each of the ~50 concrete types of the family (every Serde data-model category and the shape-ambiguous nestings: Option<Option<T>>, Option<()>, Option<Vec<T>>, Vec<Option<T>>, newtype variant around a sequence / tuple / option, empty tuple and struct variants, 1-tuples, maps keyed by integers, chars, strings and unit variants, structs with unit and option fields, enums inside maps inside structs, a recursive tree) values are drawn from hand-written strategies (boundary integers, arbitrary Unicode strings, empty and long collections, non-finite floats on the value path); oracle: from_value(to_value(x)) == x, from_str(to_string(x)) == x for finite floats (floats within the C05 tolerance, which is exact for f32), and two unequal values of one type never serialize to equal S-expressions; non-trivial = the value has a composite below the root or the type is one of the shape-ambiguous ones; distinct by digest of (type, value); counted per type in `classes`",
+    rule: "(round 9: field and variant names spelled like constants - inf, -inf, NaN, nan, e, true, null, ..., ->x, inf.0 - in three more family types) (round 8: every f32 bit pattern through to_value/from_value in the thorough tier, every 512th in the quick tier; newtype structs around one-element tuples, arrays and sequences) (rounds 6-7: std::net address types, which ask is_human_readable; every integer type at every power of two and of ten with neighbours; targets that borrow strings and byte buffers from the value, value path only) (text clause: the text also goes through serde_lexpr::to_writer and to_writer_custom into sinks that accept 1, 3 or 7 bytes per call - native write_vectored included - and into a sink that fails half way, and is read back through from_slice, from_reader on a cursor and from_reader on a one-byte-per-call reader) for each of the ~50 concrete types of the family (every Serde data-model category and the shape-ambiguous nestings: Option<Option<T>>, Option<()>, Option<Vec<T>>, Vec<Option<T>>, newtype variant around a sequence / tuple / option, empty tuple and struct variants, 1-tuples, maps keyed by integers, chars, strings and unit variants, structs with unit and option fields, enums inside maps inside structs, a recursive tree) values are drawn from hand-written strategies (boundary integers, arbitrary Unicode strings, empty and long collections, non-finite floats on the value path); oracle: from_value(to_value(x)) == x, from_str(to_string(x)) == x for finite floats (floats within the C05 tolerance, which is exact for f32), and two unequal values of one type never serialize to equal S-expressions; non-trivial = the value has a composite below the root or the type is one of the shape-ambiguous ones; distinct by digest of (type, value); counted per type in `classes`",
     assumptions: &[
         "128-bit integers are not part of the documented data model and are not in the family",
         "NaN is checked separately (bitwise is_nan), all other comparisons use the types' own PartialEq",
